@@ -236,8 +236,8 @@ let known name =
       let h = List.rev !ops in
       let k =
         match name with
-        | "K18" -> v4_k18 !mx !manual h
-        | "K19" -> v4_k19 h
+        | "K29" -> v4_k29 !mx !manual h
+        | "K30" -> v4_k30 h
         | "CONTRACT" -> v4_contract (v4_init !mx !manual) h
         | _ -> failwith ("unknown predicate " ^ name)
       in
